@@ -103,5 +103,20 @@ func ConcFamilies(seed int64, scale string) []ConcCase {
 			Op{K: "txmeta", L: "l1", ID: 1, Meta: map[string]string{"role": "w"}})
 	}
 	add("ids/first-writes", nil, nil, fund("bob", "USD", 1, 3), fund("orders:1", "EUR/2", 2, 3))
+	// --- C12: import vs concurrent first writes on the same (pristine) ledger l2; l1 is the source
+	onL2 := func(o Op) Op { o.L = "l2"; return o }
+	imp := Op{K: "import", L: "l2", Src: "l1"}
+	for _, bucket := range []string{"b2", "b1"} {
+		src := []Op{fund("alice", "USD", bal, 1), spend("alice", "bob", "USD", 1, 0, 2)}
+		add("import/vs-write-"+bucket, nil, src, imp, onL2(fund("carol", "USD", 2, 3)))
+		out[len(out)-1].Extra = []CaseLedger{{Name: "l2", Bucket: bucket}}
+		out[len(out)-1].Target = "l2"
+		add("import/vs-import-"+bucket, nil, src, imp, imp)
+		out[len(out)-1].Extra = []CaseLedger{{Name: "l2", Bucket: bucket}}
+		out[len(out)-1].Target = "l2"
+	}
+	add("import/vs-two-writes", nil, []Op{fund("alice", "USD", bal, 1)}, imp, onL2(fund("carol", "USD", 2, 3)), onL2(fund("bob", "EUR/2", 1, 3)))
+	out[len(out)-1].Extra = []CaseLedger{{Name: "l2", Bucket: "b2"}}
+	out[len(out)-1].Target = "l2"
 	return out
 }
